@@ -46,7 +46,7 @@ class Gen:
         opts = [("ret",)] * 2
         if in_loop:
             opts += [("exit",)] * 4 + [("cycle",)] * 3
-        opts += [("goto", L) for L in avail] * 2
+        opts += [("goto", L) for L in avail] * 4
         t = r.choice(opts)
         self.features.add(t[0])
         return t
@@ -55,7 +55,7 @@ class Gen:
         r = self.rng
         n = r.randint(3, 6) if top else r.randint(1, 3)
         own, pos = None, None
-        if n >= 2 and r.random() < (0.35 if top else 0.12):
+        if n >= 2 and r.random() < (0.4 if top else 0.15):
             own, pos = self.next_label, r.randint(1, n)
             self.next_label += 100
         out = []
@@ -69,9 +69,9 @@ class Gen:
             self.budget -= 1
             c = r.random()
             in_loop = bool(loopvars) or nwhile > 0
-            if c < 0.28:
+            if c < 0.22:
                 out.append(self.assign(loopvars))
-            elif c < 0.36:
+            elif c < 0.29:
                 out.append(("write",))
             elif c < 0.56:
                 # guarded transfer
@@ -153,8 +153,13 @@ def source_of(stmts, name="work"):
 
 
 def gen_program(rng):
-    g = Gen(rng, rng.randint(4, 9))
-    body = g.stmts(0, [], 0, [], top=True)
+    """mostly programs with at least one loop and one control transfer"""
+    for attempt in range(6):
+        g = Gen(rng, rng.randint(5, 10))
+        body = g.stmts(0, [], 0, [], top=True)
+        f = g.features
+        if attempt == 5 or (f & {"do", "while"} and f & {"exit", "cycle", "goto", "ret"}) or rng.random() < 0.1:
+            break
     return source_of(body), sorted(g.features)
 
 
